@@ -1506,6 +1506,68 @@ def b1_break_and_window_laws(F, r):
         r.fail("OptionalBreak::evaluate_route", f"not evaluable: {e}", F.loc(er))
 
 
+def d2_travel_delta_law(F, r):
+    """tour distance / duration limits: the change caused by an insertion is (prev->target) + (target->next) - (prev->next), component by component (distance with
+    distance, duration with duration); with an open end it is (prev->target) alone. Canonical expressions of calculate_travel_delta."""
+    fid = "vrp_core::construction::enablers::travel_info::calculate_travel_delta"
+    if fid not in F.fns:
+        raise AnchorError(fid)
+    fn = F.fns[fid]
+
+    def role(e):
+        pth = [x for x in e[1] if isinstance(x, str)]
+        for nm in ("prev", "target", "next"):
+            if "." + nm in pth:
+                return nm
+        # the payload of `if let Some(next) = next`
+        if any("Some" in x for x in pth) or e[0][0] == "opaque":
+            return "next"
+        return "?"
+
+    def terms(e, sign, out):
+        rt = e[0]
+        if rt[0] == "bin" and rt[1] in ("Add", "Sub") and not e[1]:
+            terms(rt[2], sign, out)
+            terms(rt[3], sign if rt[1] == "Add" else -sign, out)
+        elif rt[0] == "call" and rt[1].endswith("calculate_travel_leg") and e[1] and e[1][0] in (".0", ".1"):
+            a = rt[2]
+            key = (role(a[1]), role(a[2]), e[1][0])
+            out[key] = out.get(key, 0) + sign
+        else:
+            out[("?", str(e)[:40], "")] = sign
+        return out
+    aggs = [st for _, _, st in mir.stmts(fn) if st["r"]["k"] == "agg" and st["r"].get("ak") == "tuple" and st["d"]["l"] == 0 and not st["d"]["p"] and len(st["r"]["o"]) == 2]
+    if len(aggs) != 2:
+        r.ok("calculate_travel_delta", f"not decided: {len(aggs)} result tuples (expected the insertion case and the open-end case)")
+        return
+    full = {("prev", "target"): 1, ("target", "next"): 1, ("prev", "next"): -1}
+    open_end = {("prev", "target"): 1}
+    seen = set()
+    for st in aggs:
+        comps = [terms(mir.expr(fn, o), 1, {}) for o in st["r"]["o"]]
+        shapes = []
+        for i, c in enumerate(comps):
+            want_comp = ".0" if i == 0 else ".1"
+            legs = {(k[0], k[1]): v for k, v in c.items()}
+            wrong_comp = [k for k in c if k[2] != want_comp]
+            shapes.append((legs, wrong_comp))
+        kind = "insertion" if len(shapes[0][0]) > 1 or len(shapes[1][0]) > 1 else "open end"
+        seen.add(kind)
+        want = full if kind == "insertion" else open_end
+        for i, (legs, wrong_comp) in enumerate(shapes):
+            what = "distance" if i == 0 else "duration"
+            inst = f"calculate_travel_delta [{kind}]: {what}"
+            if wrong_comp:
+                r.fail(inst, f"the {what} change mixes in the {'duration' if i == 0 else 'distance'} component of a leg ({wrong_comp[0][:2]})", F.loc(fid, st.get("ln")))
+            elif legs != want:
+                r.fail(inst, f"the {what} change is {sorted(legs.items())}; it must be +(prev->target) +(target->next) -(prev->next)" + (" / +(prev->target) at an open end" if kind != "insertion" else "")
+                       + ": tour limits are tested against a wrong total", F.loc(fid, st.get("ln")))
+            else:
+                r.ok(inst, "+(prev->target) +(target->next) -(prev->next)" if kind == "insertion" else "+(prev->target)")
+    if seen != {"insertion", "open end"}:
+        r.fail("calculate_travel_delta: cases", f"only {sorted(seen)} handled", F.loc(fid))
+
+
 CAP_NAMES = ("capacity", "available", "resource_available", "resources", "resource_capacity")
 
 
@@ -1915,6 +1977,7 @@ def run(ctx):
     ctx.run("C01-C1", "capacity: demand parts tested against their own load summaries; violation iff some load does not fit; abort only for static delivery", c1_capacity_law, floor=5)
     ctx.run("C01-W1", "time windows: admitted iff no arrival after its latest time and the shift covers the windows; fail only on target-independent facts (finite evaluation)", w1_time_window_law, floor=1)
     ctx.run("C01-N1", "reachability: rejected iff a new leg has a negative distance (finite evaluation over <0, =0, >0 of both legs)", n1_reachable_law, floor=1)
+    ctx.run("C01-D2", "travel delta for tour limits: +(prev->target) +(target->next) -(prev->next) per component", d2_travel_delta_law, floor=1)
     ctx.run("C01-M1", "tour limits: violation iff total + change > limit; each limit compared with its own total / change component / code", m1_limit_laws, floor=3)
     ctx.run("C01-S1", "skills: allOf ⊆, oneOf ∩≠∅, noneOf ∩=∅ over the right fields; a job is admitted iff all three hold (finite evaluation)", s1_skill_laws, floor=10)
     ctx.run("C01-O4", "can_fit is asked of the capacity / available resource about the load (roles not swapped)", o4_can_fit_roles, floor=8)
